@@ -155,7 +155,7 @@ func dischargeAll(obls []*Obligation, timeoutS, seed int, cross bool, workers in
 			// Functions verified under assumed callee preconditions: a discharged
 			// postcondition only counts if its path condition is not itself refutable
 			// (otherwise the "proof" is vacuous).
-			if res[i].OK && o.Kind == "post" && o.fe.root().c != nil && (o.fe.root().c.AssumePre || vacuityAudit) {
+			if res[i].OK && o.Kind == "post" && o.fe.root().c != nil && (o.fe.root().c.AssumePre || len(o.fe.root().c.AssumePreOf) > 0 || vacuityAudit) {
 				vr := solve(o.queryFor(o.PC, "false"), 3, seed, false)
 				if vr.Status == "unsat" {
 					res[i].OK = false
